@@ -442,6 +442,31 @@ def classify(case, cname, defm):
     return None
 
 
+def tlv_is_indefinite(b):
+    """the octets start with an identifier followed by the indefinite-length octet 0x80"""
+    b = bytes(b)
+    if not b:
+        return False
+    i = 1
+    if b[0] & 0x1f == 0x1f:
+        while i < len(b) and b[i] & 0x80:
+            i += 1
+        i += 1
+    return i < len(b) and b[i] == 0x80
+
+
+def indef_any_payload(case):
+    """some ANY value inside an inner value or a sibling is itself an indefinite-length encoding: not DER,
+    and the DER decoder refuses it wherever it meets it (no concern of open types)"""
+    tv = [(T, v) for T, v in case['inner']] if case['present'] else []
+    tv += [(ft, fv) for (p, ft), fv in zip(case['fields'], case['vals']) if fv is not None]
+    for T, v in tv:
+        for ct, cv, _ in codec.encoded_components(T, v):
+            if base_desc(ct)[0] == 'any' and cv[0] == 'any' and tlv_is_indefinite(cv[1]):
+                return True
+    return False
+
+
 def f24_class(case, cname):
     """F24 (CER/DER leave out an OPTIONAL constructed component that is present but empty) inside an inner
     value or a sibling, or at the open member itself: an OPTIONAL open member gets ifNotEmpty, so an inner
@@ -525,7 +550,7 @@ def run(ctx):
     search_only = getattr(ctx, 'search_only', False)
     g = gen.Gen(ctx.rng, depth=2, max_fields=3)
     cases = targeted() if ctx.scale == 1 else []
-    n = ctx.n(60, 1200)
+    n = ctx.n(60, 4000)
     tries = 0
     while len(cases) < n + (len(targeted()) if ctx.scale == 1 else 0) and tries < 20 * n:
         tries += 1
@@ -543,6 +568,9 @@ def run(ctx):
         for T, _ in case['inner'][:1]:
             ctx.stats['inner:' + base_desc(T)[0]] += 1
         for cname, defm in MODES:
+            if cname == 'DER' and indef_any_payload(case):
+                ctx.stats['skipped:ANY payload in indefinite form under DER'] += 1
+                continue
             if f24_class(case, cname):
                 ctx.stats['skipped:F24-class(optional constructed component with empty contents under CER/DER)'] += 1
                 continue
